@@ -47,7 +47,8 @@ def run(ck):
         L = float(rng.choice([0.5, 1.0, 3.0, 20.0]))
         p, q = 2.0, [1.0, 1.3, 0.7, 2.0][(i // 5) % 4]
         if kn == 'lpq':
-            p, q = [(1.5, 1.0), (2.0, 1.4), (1.5, 1.5), (2.0, 0.8)][(i // 5) % 4]
+            # includes the boundary norm p = 1 (with q < 1 and q = 1); index 4 meets the coincident-point case (i = 23) in the quick tier
+            p, q = [(1.5, 1.0), (2.0, 1.4), (1.5, 1.5), (2.0, 0.8), (1.0, 0.7), (1.0, 1.0)][(i // 5) % 6]
         if kn == 'l1':
             q = [1.4, 2.0, 1.2][(i // 5) % 3]
         cmix = float(rng.choice([0.0, 0.3])); power = int(rng.choice([1, 2, 3]))
